@@ -76,9 +76,9 @@ theorem constLoop_eq (s : List Nat) : ∀ i, i ≤ s.length →
     have hi : i < s.length := by omega
     rw [constLoop, idx_lt hi, bind_ok, constLoop_eq s i (by omega), ← List.take_append_getElem hi]
     by_cases hb : s[i] = 0
-    · simp [hb]
+    · simp only [hb, if_true, List.mem_append, List.mem_singleton, or_true]
     · have : ¬ (0 = s[i]) := fun h => hb h.symm
-      simp [hb, this]
+      simp only [hb, this, if_false, List.mem_append, List.mem_singleton, or_false]
 
 theorem constValidate_snoc (c : List Nat) (b : Nat) :
     constValidate (c ++ [b]) = if b = 0 ∧ 0 ∉ c then .ok () else .panic := by
@@ -134,10 +134,544 @@ theorem fileUnixName_spec (buf : List Nat) :
     refine ⟨pre, post, h1, h2, ?_⟩
     subst h1
     simp only [fileUnixName, bufStrlen, h3, bind_ok, Nat.zero_add]
-    have : pre.length + 1 ≤ (pre ++ 0 :: post).length := by simp; omega
+    have : pre.length + 1 ≤ (pre ++ 0 :: post).length := by simp
     simp only [this, if_true]
     congr 1
-    rw [List.take_append]
+    rw [List.take_append, List.take_of_length_le (by omega)]
     simp
+
+
+/-! ## buf_find = naiveFind -/
+
+/-- what the inner loop computes, as a function of the two remaining slices -/
+def cmpRest : List Nat → List Nat → Inner
+  | _, [] => .matched
+  | [], _ :: _ => .retNone
+  | a :: x, b :: y => if a ≠ b then .noMatch else cmpRest x y
+
+@[simp] theorem cmpRest_nil (x : List Nat) : cmpRest x [] = .matched := by cases x <;> rfl
+
+theorem cmpRest_matched : ∀ (x y : List Nat), cmpRest x y = .matched ↔ y.isPrefixOf x = true
+  | x, [] => by simp
+  | [], b :: y => by simp [cmpRest]
+  | a :: x, b :: y => by
+    by_cases hab : a = b
+    · subst hab; simp [cmpRest, cmpRest_matched x y]
+    · have : ¬ (b = a) := fun h => hab h.symm
+      simp [cmpRest, hab, this]
+
+theorem cmpRest_retNone : ∀ (x y : List Nat), cmpRest x y = .retNone → x.length < y.length
+  | x, [] => by simp
+  | [], b :: y => by simp
+  | a :: x, b :: y => by
+    by_cases hab : a = b
+    · subst hab; simp only [cmpRest, ne_eq, not_true_eq_false, if_false, List.length_cons]
+      intro h; have := cmpRest_retNone x y h; omega
+    · simp [cmpRest, hab]
+
+theorem innerLoop_eq (h n : List Nat) (i : Nat) : ∀ k j, j + k = n.length →
+    innerLoop h n i k j = .ok (cmpRest (h.drop (i + j)) (n.drop j))
+  | 0, j, hk => by
+    have : n.drop j = [] := List.drop_eq_nil_of_le (by omega)
+    simp [innerLoop, this]
+  | k + 1, j, hk => by
+    have hj : j < n.length := by omega
+    rw [innerLoop, List.drop_eq_getElem_cons hj]
+    cases hh : h[i + j]? with
+    | none =>
+      have : h.drop (i + j) = [] := List.drop_eq_nil_of_le (by
+        have := List.getElem?_eq_none_iff.1 hh; omega)
+      simp only [this, cmpRest]
+    | some this =>
+      have hij : i + j < h.length := by
+        rcases Nat.lt_or_ge (i + j) h.length with hlt | hge
+        · exact hlt
+        · rw [List.getElem?_eq_none_iff.2 hge] at hh; cases hh
+      have hv : h[i + j] = this := by
+        rw [List.getElem?_eq_getElem hij] at hh; exact Option.some.inj hh
+      rw [List.drop_eq_getElem_cons hij, hv]
+      simp only [idx_lt hj, bind_ok, cmpRest]
+      by_cases hne : this = n[j]
+      · simp only [hne, ne_eq, not_true_eq_false, if_false]
+        rw [innerLoop_eq h n i k (j + 1) (by omega)]
+        rfl
+      · simp [hne]
+
+theorem naiveFind_short (n : List Nat) : ∀ (x : List Nat), x.length < n.length → naiveFind n x = none
+  | [], h => by
+    cases n with
+    | nil => simp at h
+    | cons a t => simp [naiveFind]
+  | a :: x, h => by
+    have hp : n.isPrefixOf (a :: x) = false := by
+      cases hq : n.isPrefixOf (a :: x) with
+      | false => rfl
+      | true =>
+        have := (List.isPrefixOf_iff_prefix.1 hq).length_le
+        simp at h this; omega
+    have := naiveFind_short n x (by simp at h; omega)
+    simp [naiveFind, hp, this]
+
+theorem naiveFind_nil_needle (h : List Nat) : naiveFind [] h = some 0 := by
+  cases h <;> simp [naiveFind]
+
+theorem outerLoop_eq (h : List Nat) (n0 : Nat) (nt : List Nat) : ∀ k i, i + k = h.length →
+    outerLoop h (n0 :: nt) n0 k i = .ok ((naiveFind (n0 :: nt) (h.drop i)).map (· + i))
+  | 0, i, hk => by
+    have : h.drop i = [] := List.drop_eq_nil_of_le (by omega)
+    simp [outerLoop, this, naiveFind]
+  | k + 1, i, hk => by
+    have hi : i < h.length := by omega
+    have ih := outerLoop_eq h n0 nt k (i + 1) (by omega)
+    have hrec : (Option.map (· + 1) (naiveFind (n0 :: nt) (h.drop (i + 1)))).map (· + i)
+        = (naiveFind (n0 :: nt) (h.drop (i + 1))).map (· + (i + 1)) := by
+      cases naiveFind (n0 :: nt) (h.drop (i + 1)) with
+      | none => rfl
+      | some v => simp; omega
+    rw [outerLoop, idx_lt hi, bind_ok, List.drop_eq_getElem_cons hi]
+    by_cases hf : h[i] = n0
+    · have hin := innerLoop_eq h (n0 :: nt) i (nt.length) 1 (by simp; omega)
+      simp only [hf, if_true, List.length_cons, Nat.add_sub_cancel, hin, bind_ok, List.drop_succ_cons, List.drop_zero]
+      cases hc : cmpRest (h.drop (i + 1)) nt with
+      | matched =>
+        have := (cmpRest_matched _ _).1 hc
+        simp [naiveFind, this]
+      | retNone =>
+        have hl := cmpRest_retNone _ _ hc
+        have hp : nt.isPrefixOf (h.drop (i + 1)) = false := by
+          cases hq : nt.isPrefixOf (h.drop (i + 1)) with
+          | false => rfl
+          | true => have := (List.isPrefixOf_iff_prefix.1 hq).length_le; omega
+        have hs := naiveFind_short (n0 :: nt) (h.drop (i + 1)) (by simp only [List.length_cons]; omega)
+        simp [naiveFind, hp, hs]
+      | noMatch =>
+        have hp : nt.isPrefixOf (h.drop (i + 1)) = false := by
+          cases hq : nt.isPrefixOf (h.drop (i + 1)) with
+          | false => rfl
+          | true => rw [(cmpRest_matched _ _).2 hq] at hc; cases hc
+        simp only [ih, naiveFind, List.isPrefixOf, hp, Bool.and_false, Bool.false_eq_true, if_false, hrec]
+    · have hf' : (n0 == h[i]) = false := by
+        simp; exact fun h' => hf h'.symm
+      simp only [hf, if_false, ih, naiveFind, List.isPrefixOf, hf', Bool.false_and, Bool.false_eq_true, hrec]
+
+theorem bufFind_eq (h n : List Nat) : bufFind h n = .ok (naiveFind n h) := by
+  cases n with
+  | nil => simp [bufFind, naiveFind_nil_needle]
+  | cons n0 nt =>
+    simp only [bufFind, List.head?_cons]
+    rw [outerLoop_eq h n0 nt h.length 0 (by omega)]
+    simp only [List.drop_zero, Nat.add_zero]
+    cases naiveFind (n0 :: nt) h <;> rfl
+
+theorem findBuf_eq (s n : List Nat) : findBuf s n = .ok (naiveFind n s) := by
+  unfold findBuf
+  split
+  · rw [naiveFind_short n s (by omega)]
+  · exact bufFind_eq s n
+
+
+/-! ## searching the raw bytes = searching the content, for NUL-free needles -/
+
+theorem isPrefixOf_snoc_zero : ∀ (n l : List Nat), 0 ∉ n → n.isPrefixOf (l ++ [0]) = n.isPrefixOf l
+  | [], l, _ => by simp
+  | a :: t, [], h => by
+    have : ¬ (a = 0) := fun e => h (by simp [e])
+    simp [List.isPrefixOf, this]
+  | a :: t, b :: l, h => by
+    have ht : 0 ∉ t := fun e => h (by simp [e])
+    simp [List.isPrefixOf, isPrefixOf_snoc_zero t l ht]
+
+theorem naiveFind_content (n : List Nat) (hn : 0 ∉ n) : ∀ (c : List Nat), naiveFind n (c ++ [0]) = naiveFind n c
+  | [] => by
+    cases n with
+    | nil => simp [naiveFind]
+    | cons a t =>
+      have : ¬ (a = 0) := fun e => hn (by simp [e])
+      simp [naiveFind, List.isPrefixOf, this]
+  | x :: c => by
+    have h1 := isPrefixOf_snoc_zero n (x :: c) hn
+    simp only [List.cons_append] at h1 ⊢
+    simp only [naiveFind, h1, naiveFind_content n hn c]
+
+theorem find_eq (cs co : List Nat) (hs : 0 ∉ cs) (ho : 0 ∉ co) :
+    find (cs ++ [0]) (co ++ [0]) = .ok (naiveFind co cs) := by
+  unfold find
+  split
+  · rename_i hlen
+    simp at hlen
+    rw [naiveFind_short co cs (by omega)]
+  · have : (co ++ [0]).length = co.length + 1 := by simp
+    rw [this, sub_le (by omega)]
+    simp only [bind_ok, Nat.add_sub_cancel, Nat.le_add_right, if_true]
+    rw [List.take_append, List.take_of_length_le (Nat.le_refl _)]
+    simp only [Nat.sub_self, List.take_zero, List.append_nil]
+    rw [bufFind_eq, naiveFind_content co ho cs]
+
+theorem drop_eq_cons {l : List Nat} {i a : Nat} {r : List Nat} (h : l.drop i = a :: r) :
+    ∃ hi : i < l.length, l[i] = a ∧ l.drop (i + 1) = r := by
+  have hi : i < l.length := by
+    rcases Nat.lt_or_ge i l.length with h' | h'
+    · exact h'
+    · rw [List.drop_eq_nil_of_le h'] at h; cases h
+  refine ⟨hi, ?_⟩
+  have h2 : l[i] :: l.drop (i + 1) = a :: r := (List.drop_eq_getElem_cons hi).symm.trans h
+  exact ⟨(List.cons.inj h2).1, (List.cons.inj h2).2⟩
+
+/-! ## match_up_to / match_up_to_str = length of the longest common prefix -/
+
+theorem matchLoop_eq : ∀ (cs co : List Nat) (s o : List Nat) (f it : Nat), 0 ∉ cs →
+    s.drop it = cs ++ [0] → (∃ t, o.drop it = co ++ 0 :: t) → cs.length < f →
+    matchLoop s o f it = .ok (it + (lcp cs co).length)
+  | cs, co, s, o, 0, it, _, _, _, hf => by omega
+  | [], co, s, o, f + 1, it, hs0, hs, ⟨t, ho⟩, hf => by
+    obtain ⟨hit, ha, _⟩ := drop_eq_cons (show s.drop it = 0 :: [] from hs)
+    have hio : it < o.length := by
+      rcases Nat.lt_or_ge it o.length with h | h
+      · exact h
+      · rw [List.drop_eq_nil_of_le h] at ho; cases co <;> simp at ho
+    rw [matchLoop, rd_lt hit, bind_ok, rd_lt hio, bind_ok, ha]
+    cases co <;> simp [lcp]
+  | a :: cs, co, s, o, f + 1, it, hs0, hs, ⟨t, ho⟩, hf => by
+    obtain ⟨hit, ha, hs'⟩ := drop_eq_cons (show s.drop it = a :: (cs ++ [0]) from hs)
+    have ha0 : ¬ (a = 0) := fun e => hs0 (by simp [e])
+    have hcs0 : 0 ∉ cs := fun e => hs0 (by simp [e])
+    cases co with
+    | nil =>
+      obtain ⟨hio, hb, _⟩ := drop_eq_cons (show o.drop it = 0 :: t from ho)
+      rw [matchLoop, rd_lt hit, bind_ok, rd_lt hio, bind_ok, ha, hb]
+      simp [ha0, lcp]
+    | cons b co =>
+      obtain ⟨hio, hb, ho'⟩ := drop_eq_cons (show o.drop it = b :: (co ++ 0 :: t) from ho)
+      rw [matchLoop, rd_lt hit, bind_ok, rd_lt hio, bind_ok, ha, hb]
+      by_cases hab : a = b
+      · subst hab
+        simp only [ne_eq, not_true_eq_false, ha0, or_self, if_false, lcp, if_true, List.length_cons]
+        rw [matchLoop_eq cs co s o f (it + 1) hcs0 hs' ⟨t, ho'⟩ (by simp at hf; omega)]
+        congr 1; omega
+      · simp [hab, lcp]
+
+theorem matchUpTo_eq (cs co : List Nat) (hs : 0 ∉ cs) :
+    matchUpTo (cs ++ [0]) (co ++ [0]) = .ok (lcp cs co).length := by
+  unfold matchUpTo
+  rw [matchLoop_eq cs co (cs ++ [0]) (co ++ [0]) _ 0 hs (by simp) ⟨[], by simp⟩ (by simp only [List.length_append, List.length_cons, List.length_nil]; omega)]
+  simp
+
+theorem matchStrLoop_eq : ∀ (cs co : List Nat) (s o : List Nat) (f it : Nat), 0 ∉ cs →
+    s.drop it = cs ++ [0] → o.drop it = co → it ≤ o.length → cs.length < f →
+    matchStrLoop s o f it = .ok (it + (lcp cs co).length)
+  | cs, co, s, o, 0, it, _, _, _, _, hf => by omega
+  | cs, [], s, o, f + 1, it, hs0, hs, ho, hle, hf => by
+    have : it = o.length := by
+      have := congrArg List.length ho
+      simp at this; omega
+    cases cs <;> simp [matchStrLoop, this, lcp]
+  | cs, b :: co, s, o, f + 1, it, hs0, hs, ho, hle, hf => by
+    obtain ⟨hio, hb, ho'⟩ := drop_eq_cons ho
+    have hne : ¬ (it = o.length) := by omega
+    rw [matchStrLoop]
+    cases cs with
+    | nil =>
+      obtain ⟨hit, ha, _⟩ := drop_eq_cons (show s.drop it = 0 :: [] from hs)
+      simp only [hne, if_false, rd_lt hit, bind_ok, rd_lt hio, hb, ha]
+      simp [lcp]
+    | cons a cs =>
+      obtain ⟨hit, ha, hs'⟩ := drop_eq_cons (show s.drop it = a :: (cs ++ [0]) from hs)
+      have ha0 : ¬ (a = 0) := fun e => hs0 (by simp [e])
+      have hcs0 : 0 ∉ cs := fun e => hs0 (by simp [e])
+      simp only [hne, if_false, rd_lt hit, bind_ok, rd_lt hio, hb, ha]
+      by_cases hab : a = b
+      · subst hab
+        simp only [ne_eq, not_true_eq_false, ha0, or_self, if_false, lcp, if_true, List.length_cons]
+        rw [matchStrLoop_eq cs co s o f (it + 1) hcs0 hs' ho' (by omega) (by simp at hf; omega)]
+        congr 1; omega
+      · simp [hab, lcp]
+
+theorem matchUpToStr_eq (cs o : List Nat) (hs : 0 ∉ cs) :
+    matchUpToStr (cs ++ [0]) o = .ok (lcp cs o).length := by
+  unfold matchUpToStr
+  rw [matchStrLoop_eq cs o (cs ++ [0]) o _ 0 hs (by simp) (by simp) (by omega) (by simp only [List.length_append, List.length_cons, List.length_nil]; omega)]
+  simp
+
+
+/-! ## ends_with = suffix test -/
+
+theorem endsLoop_eq (s o : List Nat) (ho : 1 ≤ o.length) (hso : o.length ≤ s.length) :
+    ∀ f ind, ind < o.length → o.length - ind ≤ f →
+    endsLoop s o f ind = .ok ((o.reverse.drop ind).isPrefixOf (s.reverse.drop ind))
+  | 0, ind, h1, h2 => by omega
+  | f + 1, ind, hi, hf => by
+    have hsr : ind < s.reverse.length := by simp; omega
+    have hor : ind < o.reverse.length := by simp; omega
+    have hsi : s[s.length - 1 - ind]? = some (s.reverse[ind]) := by
+      rw [← List.getElem?_reverse (by omega)]; exact List.getElem?_eq_getElem hsr
+    have hoi : o[o.length - 1 - ind]? = some (o.reverse[ind]) := by
+      rw [← List.getElem?_reverse (by omega)]; exact List.getElem?_eq_getElem hor
+    rw [endsLoop, sub_le (by omega), bind_ok, sub_le (by omega), bind_ok, sub_le (by omega), bind_ok,
+      sub_le (by omega), bind_ok]
+    simp only [hsi, hoi]
+    rw [List.drop_eq_getElem_cons hsr, List.drop_eq_getElem_cons hor]
+    generalize s.reverse[ind] = a
+    generalize o.reverse[ind] = b
+    by_cases heq : a = b
+    · simp only [heq, ne_eq, not_true_eq_false, if_false, List.isPrefixOf, beq_self_eq_true, Bool.true_and]
+      by_cases hz : o.length - 1 - ind = 0
+      · have : o.reverse.drop (ind + 1) = [] := List.drop_eq_nil_of_le (by simp; omega)
+        simp [hz, this]
+      · simp only [hz, if_false]
+        exact endsLoop_eq s o ho hso f (ind + 1) (by omega) (by omega)
+    · have : (b == a) = false := by
+        simp; exact fun h => heq h.symm
+      simp [heq, List.isPrefixOf, this]
+
+theorem endsWith_eq (s o : List Nat) (ho : 1 ≤ o.length) : endsWith s o = .ok (isSuffix o s) := by
+  unfold endsWith isSuffix
+  split
+  · rename_i hlen
+    cases hq : o.reverse.isPrefixOf s.reverse with
+    | false => rfl
+    | true => have := (List.isPrefixOf_iff_prefix.1 hq).length_le; simp at this; omega
+  · rw [endsLoop_eq s o ho (by omega) _ 0 (by omega) (by omega)]
+    simp
+
+theorem isSuffix_iff (o s : List Nat) : isSuffix o s = true ↔ o <:+ s := by
+  unfold isSuffix
+  rw [List.isPrefixOf_iff_prefix, List.reverse_prefix]
+
+
+/-! ## splitting at the last separator -/
+
+theorem beforeLastSlash_snoc : ∀ (l : List Nat) (b : Nat),
+    beforeLastSlash (l ++ [b]) = if b = 47 then some l else beforeLastSlash l
+  | [], b => by by_cases hb : b = 47 <;> simp [beforeLastSlash, hb]
+  | a :: l, b => by
+    simp only [List.cons_append, beforeLastSlash, beforeLastSlash_snoc l b]
+    by_cases hb : b = 47
+    · simp [hb]
+    · simp only [hb, if_false]
+
+theorem afterLastSlash_snoc : ∀ (l : List Nat) (b : Nat),
+    afterLastSlash (l ++ [b]) = if b = 47 then some [] else (afterLastSlash l).map (· ++ [b])
+  | [], b => by by_cases hb : b = 47 <;> simp [afterLastSlash, hb]
+  | a :: l, b => by
+    simp only [List.cons_append, afterLastSlash, afterLastSlash_snoc l b]
+    by_cases hb : b = 47
+    · simp [hb]
+    · simp only [hb, if_false]
+      cases afterLastSlash l with
+      | some r => simp
+      | none => by_cases ha : a = 47 <;> simp [ha]
+
+theorem beforeLastSlash_some : ∀ (c p : List Nat), beforeLastSlash c = some p → ∃ r, c = p ++ 47 :: r ∧ 47 ∉ r
+  | [], p, h => by simp [beforeLastSlash] at h
+  | b :: rest, p, h => by
+    simp only [beforeLastSlash] at h
+    cases hr : beforeLastSlash rest with
+    | some q =>
+      rw [hr] at h
+      obtain ⟨r, h1, h2⟩ := beforeLastSlash_some rest q hr
+      refine ⟨r, ?_, h2⟩
+      have : p = b :: q := by simpa using h.symm
+      simp [this, h1]
+    | none =>
+      rw [hr] at h
+      by_cases hb : b = 47
+      · simp only [hb, if_true] at h
+        have hp : p = [] := by simpa using h.symm
+        refine ⟨rest, by simp [hp, hb], ?_⟩
+        -- no slash in rest
+        have hno : ∀ (l : List Nat), beforeLastSlash l = none → 47 ∉ l := by
+          intro l
+          induction l with
+          | nil => simp
+          | cons x xs ih =>
+            intro hx
+            simp only [beforeLastSlash] at hx
+            cases hxs : beforeLastSlash xs with
+            | some q => rw [hxs] at hx; cases hx
+            | none =>
+              rw [hxs] at hx
+              by_cases hx47 : x = 47
+              · simp [hx47] at hx
+              · have := ih hxs
+                simp [this]; exact fun e => hx47 e.symm
+        exact hno rest hr
+      · simp [hb] at h
+
+/-- post-processing of the split in `path_file_name` -/
+def fnPost : Option (List Nat) → Option (List Nat)
+  | some r => if 1 < r.length then some r else none
+  | none => none
+
+theorem fileNameLoop_eq (s : List Nat) : ∀ k, k ≤ s.length →
+    fileNameLoop s k = .ok (fnPost ((afterLastSlash (s.take k)).map (· ++ s.drop k)))
+  | 0, _ => by simp [fileNameLoop, afterLastSlash, fnPost]
+  | k + 1, hk => by
+    have hlt : k < s.length := by omega
+    rw [fileNameLoop, idx_lt hlt, bind_ok, ← List.take_append_getElem hlt, afterLastSlash_snoc]
+    by_cases hb : s[k] = 47
+    · have hl : (s.drop (k + 1)).length = s.length - (k + 1) := List.length_drop
+      simp only [hb, SLASH, if_true, hk, Option.map_some, List.nil_append, fnPost, hl]
+      by_cases h2 : k + 2 < s.length
+      · have : 1 < s.length - (k + 1) := by omega
+        simp [h2, this]
+      · have : ¬ (1 < s.length - (k + 1)) := by omega
+        simp [h2, this]
+    · simp only [hb, SLASH, if_false]
+      rw [fileNameLoop_eq s k (by omega)]
+      congr 2
+      rw [List.drop_eq_getElem_cons hlt]
+      cases afterLastSlash (s.take k) with
+      | none => rfl
+      | some r => simp
+
+theorem pathFileName_eq (c : List Nat) :
+    pathFileName (c ++ [0]) = .ok ((fileNameSpec c).map (· ++ [0])) := by
+  unfold pathFileName
+  rw [fileNameLoop_eq _ _ (Nat.le_refl _)]
+  simp only [List.take_length, List.drop_length, afterLastSlash_snoc, fileNameSpec]
+  cases afterLastSlash c with
+  | none => simp [fnPost]
+  | some r =>
+    cases r with
+    | nil => simp [fnPost]
+    | cons x xs => simp [fnPost]
+
+/-- post-processing of the split in `parent_path`'s loop -/
+def pPost : Option (List Nat) → PLoop
+  | none => .retNone
+  | some p => if p.getLast? = some 47 then .retNone else .exit p.length
+
+theorem parentLoop_eq (s : List Nat) : ∀ n, n < s.length →
+    parentLoop s n = pPost (beforeLastSlash (s.take (n + 1)))
+  | 0, h => by
+    have h0 : s[0]? = some s[0] := List.getElem?_eq_getElem h
+    have ht : s.take 1 = [s[0]] := by
+      cases s with
+      | nil => simp at h
+      | cons a t => simp
+    rw [parentLoop, h0, ht]
+    by_cases hb : s[0] = 47 <;> simp [hb, beforeLastSlash, pPost, SLASH]
+  | n + 1, h => by
+    have hn : n < s.length := by omega
+    have h1 : s[n + 1]? = some s[n + 1] := List.getElem?_eq_getElem h
+    rw [parentLoop, h1, ← List.take_append_getElem h, beforeLastSlash_snoc]
+    by_cases hb : s[n + 1] = 47
+    · have hlast : (s.take (n + 1)).getLast? = s[n]? := by
+        rw [List.getLast?_take]
+        simp [List.getElem?_eq_getElem hn]
+      have hlen : (s.take (n + 1)).length = n + 1 := by simp; omega
+      simp only [hb, SLASH, if_true, pPost, hlast, hlen]
+    · simp only [hb, SLASH, if_false]
+      exact parentLoop_eq s n hn
+
+theorem parentPath_eq (c : List Nat) :
+    parentPath (c ++ [0]) = .ok ((parentSpec c).map (· ++ [0])) := by
+  unfold parentPath parentSpec
+  have hlen : (c ++ [0]).length = c.length + 1 := by simp
+  rw [hlen]
+  by_cases hc : c.length < 2
+  · have : c.length + 1 < 3 := by omega
+    simp [this, hc]
+  · have h3 : ¬ (c.length + 1 < 3) := by omega
+    simp only [h3, hc, if_false]
+    rw [sub_le (by omega), bind_ok]
+    have hl : c.length + 1 - 2 = c.length - 1 := by omega
+    rw [hl, parentLoop_eq _ _ (by simp; omega)]
+    have ht : (c ++ [0]).take (c.length - 1 + 1) = c := by
+      have : c.length - 1 + 1 = c.length := by omega
+      rw [this, List.take_append, List.take_of_length_le (Nat.le_refl _)]; simp
+    rw [ht]
+    cases hb : beforeLastSlash c with
+    | none => simp [pPost]
+    | some p =>
+      obtain ⟨r, hcr, _⟩ := beforeLastSlash_some c p hb
+      simp only [pPost]
+      by_cases hd : p.getLast? = some 47
+      · simp [hd]
+      · simp only [hd, if_false]
+        cases p with
+        | nil =>
+          subst hcr
+          simp
+        | cons x xs =>
+          have hle : (x :: xs).length ≤ c.length + 1 := by
+            have := congrArg List.length hcr; simp at this ⊢; omega
+          have htk : (c ++ [0]).take (x :: xs).length = x :: xs := by
+            rw [hcr]
+            simp
+          simp only [List.length_cons, Nat.add_eq_zero_iff, Nat.succ_ne_zero, and_false, if_false] at hle ⊢
+          simp only [List.length_cons] at htk
+          simp [hle, htk]
+
+
+/-! ## join -/
+
+theorem pathJoin_eq (ca cb : List Nat) :
+    pathJoin (ca ++ [0]) (cb ++ [0]) = .ok (joinSpec ca cb ++ [0]) := by
+  unfold pathJoin joinSpec
+  rcases List.eq_nil_or_concat ca with rfl | ⟨a', x, rfl⟩
+  · cases cb <;> simp
+  · simp only [List.getLast?_concat, List.dropLast_concat]
+    cases cb with
+    | nil => simp
+    | cons y cb' =>
+      have hl : ¬ ((y :: cb' ++ [0]).length = 1) := by simp
+      have hrd : rd (y :: cb' ++ [0]) 0 = .ok y := by simp [rd]
+      simp only [hl, if_false, hrd, bind_ok, stripTrailingSlash, stripLeadingSlash, List.getLast?_concat,
+        List.dropLast_concat, List.head?_cons, SLASH]
+      by_cases hx : x = 47 <;> by_cases hy : y = 47 <;> simp [hx, hy]
+
+theorem pathJoinFmt_eq (ca p : List Nat) (hca : 0 ∉ ca) (hp : 0 ∉ p) :
+    pathJoinFmt (ca ++ [0]) p = .ok (joinSpec ca p ++ [0]) := by
+  unfold pathJoinFmt joinSpec
+  simp only [List.dropLast_concat]
+  cases p with
+  | nil => simp
+  | cons y p' =>
+    have hy0 : ¬ (0 = y) := fun e => hp (by simp [e])
+    have hp'0 : 0 ∉ p' := fun e => hp (by simp [e])
+    rcases List.eq_nil_or_concat ca with rfl | ⟨a', x, rfl⟩
+    · simp [ensureNul_nulfree hp]
+    · have ha'0 : 0 ∉ a' := fun e => hca (by simp [e])
+      have hx0 : ¬ (0 = x) := fun e => hca (by simp [e])
+      simp only [List.getLast?_concat, List.isEmpty_cons, Bool.false_eq_true, if_false, List.head?_cons,
+        stripTrailingSlash, stripLeadingSlash, List.dropLast_concat, SLASH]
+      by_cases hx : x = 47 <;> by_cases hy : y = 47
+      · subst hx; subst hy
+        simp [ensureNul_nulfree, ha'0, hp'0]
+      · subst hx
+        simp [hy, ensureNul_nulfree, ha'0, hp'0, hy0]
+      · subst hy
+        simp [hx, ensureNul_nulfree, ha'0, hp'0, hx0]
+      · simp [hx, hy, ensureNul_nulfree, ha'0, hp'0, hx0, hy0]
+
+theorem joinSpec_nulfree (a b : List Nat) (ha : 0 ∉ a) (hb : 0 ∉ b) : 0 ∉ joinSpec a b := by
+  unfold joinSpec stripTrailingSlash stripLeadingSlash
+  have h1 : 0 ∉ a.dropLast := fun e => ha ((List.dropLast_sublist a).subset e)
+  have h2 : 0 ∉ b.drop 1 := fun e => hb (List.mem_of_mem_drop e)
+  repeat' split
+  all_goals simp_all
+
+
+theorem afterLastSlash_some : ∀ (c r : List Nat), afterLastSlash c = some r → ∃ p, c = p ++ 47 :: r
+  | [], r, h => by simp [afterLastSlash] at h
+  | b :: rest, r, h => by
+    simp only [afterLastSlash] at h
+    cases hr : afterLastSlash rest with
+    | some q =>
+      rw [hr] at h
+      obtain ⟨p, hp⟩ := afterLastSlash_some rest q hr
+      have : r = q := by simpa using h.symm
+      exact ⟨b :: p, by simp [this, hp]⟩
+    | none =>
+      rw [hr] at h
+      by_cases hb : b = 47
+      · simp only [hb, if_true] at h
+        have : r = rest := by simpa using h.symm
+        exact ⟨[], by simp [this, hb]⟩
+      · simp [hb] at h
+
+theorem isSuffix_terminated (co cs : List Nat) : isSuffix (co ++ [0]) (cs ++ [0]) = isSuffix co cs := by
+  simp [isSuffix, List.isPrefixOf]
 
 end TinyVerif.UnixStr
